@@ -138,7 +138,31 @@ TEXT_Q = grid.Grid("urls_from_text", [("t", grid.Text(FRAGS, 3, CORE, 4))])
 TEXT_T = grid.Grid("urls_from_text", [("t", grid.Text(FRAGS, 4, CORE, 5))])
 
 
+PURE_STRINGS = ["http://a.com", "a.com", "http://a.notatld/x", "http://localhost", "http://a.com/a b", "ftp://a.com", "//a.com", "http://a.com/é", "not a url", ""]
+PURE_OPTS = [{}, {"require_protocol": False}, {"tld_aware": True}, {"allow_spaces_in_path": True}, {"only_http_https": False},
+             {"require_protocol": False, "tld_aware": True, "allow_spaces_in_path": True, "only_http_https": False}]
+PURE_TEXTS = ["see [http://a.com/x](http://b.com) and http://c.com.", "[http://a.com/](  http://b.com )", "foo http://a.com/x… bar", "no url here"]
+
+
+def _texts(t):
+    return list(importlib.import_module("ural").urls_from_text(t))
+
+
+def pure_labels():
+    return [{"mod": "ural", "fn": "is_url", "args": [s], "kw": o} for s in PURE_STRINGS for o in PURE_OPTS] + \
+           [{"mod": "mc.props.c16", "fn": "_texts", "args": [t]} for t in PURE_TEXTS]
+
+
+def pure_thunk(label):
+    mod = importlib.import_module(label["mod"])
+    f = getattr(mod, label["fn"])
+    args, kw = label.get("args", []), label.get("kw", {})
+    return lambda: core.call(f, *args, **kw)
+
+
 def judge(w):
+    if "history" in w:
+        return core.judge_history(PROP + ".pure", w, pure_thunk)
     if w["kind"] == "text":
         return evaluate_text(w["case"])[0]
     return evaluate_is_url(w["case"])[0]
@@ -152,6 +176,8 @@ def fails_fn(clause, w):
 
 
 def simplify(w):
+    if "history" in w:
+        return []
     g = TEXT_T if w["kind"] == "text" else URL_GRID
     return [dict(x, kind=w["kind"]) for x in g.wsimplify(w)]
 
@@ -172,6 +198,8 @@ def run(chk):
     g = TEXT_Q if quick else TEXT_T
     f2, t2 = grid.run(chk, g, None, evaluate_text, shrink=(lambda case: dict(g.wit(case), kind="text"), simplify, fails_fn))
     n2 = chk.cov["states"] - n1
+    chk.rule.append("H2: every ordered pair of %d is_url / urls_from_text calls from a reset module state." % len(pure_labels()))
+    core.explore_pairs(chk, PROP + ".pure", [(l, pure_thunk(l)) for l in pure_labels()])
     chk.add("transitions", n1 * 32 + n2 * 2)
     chk.add("evaluations", n1 * 16 + n2)
     for c in ("total", "strip", "monotone", "tld"):
